@@ -629,16 +629,23 @@ pub fn replay_with<'a, T>(rec: &'a Rec, f: impl FnOnce(&mut Play<'a>) -> Result<
 
 // ------------------------------------------------------------------------------------- harness structs for the field helpers
 
-/// A user struct with a colour field stored through `#[serde(with = "palette::serde::as_array")]` (the documented use).
-#[derive(serde::Serialize, serde::Deserialize)]
-#[serde(bound(
-    serialize = "C: palette::cast::ArrayCast, C::Array: serde::Serialize",
-    deserialize = "C: palette::cast::ArrayCast, C::Array: serde::Deserialize<'de>"
-))]
-pub struct WithArray<C> {
-    #[serde(with = "palette::serde::as_array")]
-    pub c: C,
+/// User structs with a colour field stored through `#[serde(with = "palette::serde::as_array")]` (the documented use), one per
+/// concrete colour type: no generic bound on the helper's signature is baked into the harness, so a change of the helper's
+/// bounds that keeps concrete uses compiling is checked for what it does rather than rejected by the harness build.
+macro_rules! with_array {
+    ($name:ident, $ty:ty) => {
+        #[derive(serde::Serialize, serde::Deserialize)]
+        #[serde(rename = "WithArray")]
+        pub struct $name {
+            #[serde(with = "palette::serde::as_array")]
+            pub c: $ty,
+        }
+    };
 }
+with_array!(WithArrayRgbU8, palette::rgb::Rgb<palette::encoding::Srgb, u8>);
+with_array!(WithArrayRgbaU8, palette::Alpha<palette::rgb::Rgb<palette::encoding::Srgb, u8>, u8>);
+with_array!(WithArrayRgbF32, palette::rgb::Rgb<palette::encoding::Srgb, f32>);
+with_array!(WithArrayHsvaF32, palette::Alpha<palette::Hsv<palette::encoding::Srgb, f32>, f32>);
 
 /// A user struct with a colour field stored through `#[serde(with = "palette::serde::as_uint")]` (the documented use).
 #[derive(serde::Serialize, serde::Deserialize)]
